@@ -282,7 +282,7 @@ func Execute(sc Scenario, pubs []*chain.Pub) (log []gate.Event, key, detail stri
 			// really over?  a sync goroutine that is neither parked nor blocked is still on its way to a hook
 			// (or waits for a lock that a goroutine the scheduler does not track holds for a moment)
 			moving, blocked, stacks := s.Unfinished(syncFrames)
-			if moving+blocked > 0 && time.Since(lastProgress) < 2*time.Second {
+			if moving+blocked > 0 && time.Since(lastProgress) < 8*time.Second {
 				stragglerWaits++
 				time.Sleep(100 * time.Microsecond)
 				s.Settle()
@@ -397,7 +397,7 @@ func Execute(sc Scenario, pubs []*chain.Pub) (log []gate.Event, key, detail stri
 				}
 			}
 		}
-		if !s.Settle() {
+		if !s.Settle() && !s.Settle() && !s.Settle() { // three watchdog periods before a goroutine on its way counts as stuck
 			key, detail = "hang", fmt.Sprintf("after step %d: a goroutine neither reached a hook, nor returned, nor blocked in a library primitive within %v:\n%s", step, s.Watchdog, s.Hang)
 			break
 		}
@@ -545,11 +545,11 @@ func afterClose(r *run) (string, string) {
 			if msg != "" {
 				return "api-after-close", msg
 			}
-		case <-time.After(3 * time.Second):
-			return "api-after-close-blocks", name + " did not return within 3s after Close"
+		case <-time.After(12 * time.Second):
+			return "api-after-close-blocks", name + " did not return within 12s after Close"
 		}
 	}
-	deadline := time.Now().Add(2 * time.Second)
+	deadline := time.Now().Add(8 * time.Second)
 	for {
 		buf := make([]byte, 1<<20)
 		n := runtime.Stack(buf, true)
@@ -563,7 +563,7 @@ func afterClose(r *run) (string, string) {
 			return "", ""
 		}
 		if time.Now().After(deadline) {
-			return "goroutine-leak", "a goroutine of the subscriber is still alive 2s after Close returned:\n" + leak
+			return "goroutine-leak", "a goroutine of the subscriber is still alive 8s after Close returned:\n" + leak
 		}
 		time.Sleep(5 * time.Millisecond)
 	}
@@ -654,14 +654,6 @@ func Run(args []string) *rep.Report {
 			use = []*chain.Pub{long}
 		}
 		log, key, detail := Execute(sc, use)
-		if key == "hang" || key == "goroutine-leak" || key == "api-after-close-blocks" {
-			// confirm before alarm: a real deadlock shows again, with four times the patience
-			sc2 := sc
-			sc2.Patience = 4
-			if _, key2, _ := Execute(sc2, use); key2 != key {
-				key, detail = "infra", "a "+key+" did not reproduce with a longer watchdog (busy machine): "+trim(detail, 300)
-			}
-		}
 		r.Eval(true)
 		if i%37 == 0 {
 			r.Sample(map[string]interface{}{"scenario": sc, "first_events": log[:min(len(log), 40)]})
